@@ -62,6 +62,7 @@ func VerifyFunc(p *Program, cs *Contracts, fn *ssa.Function, cfg *CheckConfig, w
 			}
 		}()
 		e.generate()
+		e.postApplicability()
 	}()
 	for n := range e.Notes {
 		res.Notes = append(res.Notes, n)
@@ -165,7 +166,7 @@ func (e *Engine) generate() {
 		e.structural(e.FnKey+"/noescape", "noescape", fn.Pos(), "pointer parameters are not retained", ok, why)
 	}
 	// termination of recursion: a function on a call-graph cycle needs a measure
-	if e.P.Recursive(fn) {
+	if e.P.Recursive(fn) && !structuralMeasure(e.Contract) {
 		if e.Contract == nil || e.Contract.Decreases == nil {
 			e.structural(e.FnKey+"/decreases-missing", "rec-decreases", fn.Pos(), "recursive function has a decreases clause", false, "function is on a call-graph cycle and has no decreases clause")
 		} else {
@@ -214,9 +215,31 @@ func (e *Engine) checkPost(o outcome) {
 		}
 		return
 	}
+	if e.postSeen == nil {
+		e.postSeen = map[int]int{}
+	}
+	e.postReturns++
 	for k, en := range e.Contract.Ensures {
-		t, _ := e.tryEvalBool(s, ctx, en.Expr)
+		t, ok := e.tryEvalBool(s, ctx, en.Expr)
+		if ok {
+			e.postSeen[k]++
+		}
 		e.assert(s, fmt.Sprintf("%s/post#%d", e.FnKey, k), "post", fn.Pos(), en.Text, t)
+	}
+}
+
+// postApplicability: a postcondition that speaks about a call (callarg, callret, ...) or a local says
+// nothing on a return path without that call or local. A clause that says nothing on every return path
+// would verify whatever the code does, so it is reported as failed.
+func (e *Engine) postApplicability() {
+	if e.Contract == nil || e.Exclusive || e.postReturns == 0 {
+		return
+	}
+	for k, en := range e.Contract.Ensures {
+		if e.postSeen[k] == 0 {
+			e.structural(fmt.Sprintf("%s/post-applies#%d", e.FnKey, k), "post", e.Fn.Pos(), en.Text, false,
+				"the clause is not applicable on any return path (a call or local it mentions never occurs), so it constrains nothing")
+		}
 	}
 }
 
@@ -623,4 +646,14 @@ func (e *Engine) frameFormula(s *State, names []string, cur, base map[string]str
 		goals = append(goals, fmt.Sprintf("(forall ((r!f Int)) (=> %s (= (select %s r!f) (select %s r!f))))", and(conds...), c, b))
 	}
 	return goals
+}
+
+// structuralMeasure: the decreases clause is tree(p) / visited(p), decided by the structural-recursion
+// analysis on the SSA def-use chains rather than by an SMT measure.
+func structuralMeasure(ct *Contract) bool {
+	if ct == nil || ct.Decreases == nil {
+		return false
+	}
+	t := strings.TrimSpace(ct.Decreases.Text)
+	return strings.HasPrefix(t, "tree(") || strings.HasPrefix(t, "visited(")
 }
